@@ -2580,11 +2580,18 @@ where
 {
     match **typ {
         Type::Record(_) => {
+            let mut fields = row_iter(typ);
+            let mut len = 0;
+            let tuple_fields = fields.by_ref().enumerate().all(|(i, field)| {
+                len = i + 1;
+                let name = field.name.as_ref();
+                name.starts_with('_') && name[1..].parse() == Ok(i)
+            });
+            // `(a)` is just `a` in parentheses and the tuple syntax can not express a row tail
             type_field_iter(typ).next().is_none()
-                && row_iter(typ).enumerate().all(|(i, field)| {
-                    let name = field.name.as_ref();
-                    name.starts_with('_') && name[1..].parse() == Ok(i)
-                })
+                && tuple_fields
+                && len != 1
+                && matches!(**fields.current_type(), Type::EmptyRow)
         }
         _ => false,
     }
